@@ -191,3 +191,12 @@ def agg_wrapper(ctx):
     r = returns(fa)
     want = T.call(T.attr(V('self'), '_aggregate'), (V('span'),))
     ctx.eq(R, 'delegates', r[-1].value if r else None, want, ctx.where(fa), 'the mapped worker is _aggregate on the same span')
+
+
+_run_core = run
+
+
+def run(ctx):
+    _run_core(ctx)
+    from . import refs_misc
+    refs_misc.run_for(ctx, 'C08')
